@@ -363,7 +363,15 @@ func (e *effectEngine) returnsFresh(fn *ssa.Function, idx int) bool {
 
 // globalBehind returns the package-level variable a pointer value is loaded from, if any.
 func globalBehind(v ssa.Value) *ssa.Global {
+	return globalBehindSeen(v, map[ssa.Value]bool{})
+}
+
+func globalBehindSeen(v ssa.Value, seen map[ssa.Value]bool) *ssa.Global {
 	for i := 0; i < 8; i++ {
+		if seen[v] {
+			return nil // a phi cycle (loop-carried value)
+		}
+		seen[v] = true
 		switch x := v.(type) {
 		case *ssa.Global:
 			return x
@@ -397,7 +405,7 @@ func globalBehind(v ssa.Value) *ssa.Global {
 			return nil
 		case *ssa.Phi:
 			for _, e := range x.Edges {
-				if g := globalBehind(e); g != nil {
+				if g := globalBehindSeen(e, seen); g != nil {
 					return g
 				}
 			}
